@@ -227,3 +227,30 @@ def named_to_coq(case, res):
             [case["dir"], case["X"], case["Y"], 0 if dy is None else 1, 1 if case["lorch"] else 0,
              1 if case["omitted"] else 0, case["channel"]],
             out)
+
+
+def poison(sizes, fill):
+    """Fill and free heap blocks of the given element counts, so that the next
+    uninitialised numpy allocation of such a size sees `fill`."""
+    blocks = []
+    for n in sizes:
+        for _ in range(48):
+            blocks.append(np.full(max(1, n), fill))
+    del blocks
+
+
+def l1_scale(case, lorch=None):
+    """L1 magnitude of the quadrature terms of a fourier_transform case (pure Python)."""
+    x, y = case["xin"], case["yin"]
+    e = case["dy"] if case["dy"] is not None else [0.0] * len(x)
+    lo = case["xmin"] if case["xmin"] is not None else min(x)
+    hi = case["xmax"] if case["xmax"] is not None else max(x)
+    xc, yc, ec = crop_py(x, y, e, lo, hi)
+    if (case["lorch"] if lorch is None else lorch) and hi != 0:
+        a = math.pi / hi
+        w = [lorch_w(a, v) for v in xc]
+        yc = [u * v for u, v in zip(w, yc)]
+        ec = [u * v for u, v in zip(w, ec)]
+    mag = sum(abs(xc[i + 1] - xc[i]) * (abs(yc[i + 1]) + abs(yc[i])) / 2 for i in range(len(xc) - 1))
+    emag = math.sqrt(sum((xc[i + 1] - xc[i]) ** 2 * (ec[i + 1] ** 2 + ec[i] ** 2) / 2 for i in range(len(xc) - 1)))
+    return xc, yc, ec, mag, emag
